@@ -333,12 +333,12 @@ Proof.
   assert (Hcase : (exists kv, num_of v = Some kv) \/ (exists s, v = VStr s)).
   { destruct v; try contradiction Hv; try (left; eexists; reflexivity). right; eexists; reflexivity. }
   destruct Hcase as [[kv Hkv]|[s ->]].
-  - rewrite (py_eq_num _ _ _ Hkv) in Ha, Hb.
+  - rewrite (py_eq_num a _ _ Hkv) in Ha. rewrite (py_eq_num b _ _ Hkv) in Hb.
     destruct (num_of a) as [ka|] eqn:Ea; [|discriminate Ha].
     destruct (num_of b) as [kb|] eqn:Eb; [|discriminate Hb].
     rewrite (py_eq_num _ _ _ Eb), Ea.
     apply num_eqb_eq in Ha, Hb. subst. apply num_eqb_eq. reflexivity.
-  - rewrite py_eq_str in Ha, Hb.
+  - rewrite py_eq_str in Ha. rewrite py_eq_str in Hb.
     destruct a; try discriminate Ha. destruct b; try discriminate Hb.
     apply String.eqb_eq in Ha, Hb. subst. cbn [py_eq num_of]. apply String.eqb_refl.
 Qed.
@@ -439,3 +439,830 @@ Proof.
   rewrite app_nil_r. apply IH; [exact Hps|].
   apply (children_wf p node k c Hwf). rewrite Ec. left. reflexivity.
 Qed.
+
+(* concrete paths are made of primitive parts; a path without parts is concrete *)
+Lemma spart_of_prim t p : spart_of t = Ok (p, false) -> prim_part p.
+Proof.
+  destruct t as [v|k v c l|i v c l|k i v lc mc c l].
+  - destruct v; cbn [spart_of]; intros H; try discriminate H; inversion H; eexists; (split; [|eauto]); exact I.
+  - rewrite spart_of_map. destruct (map_tree SKey c k v); cbn [bind]; intros H; discriminate H.
+  - rewrite spart_of_list. destruct (map_tree SIndex c i v); cbn [bind]; intros H; discriminate H.
+  - rewrite spart_of_mol. unfold mol_spec.
+    destruct (G SIndex lc i); cbn [bind]; [|intros H; discriminate H].
+    destruct (G SKey mc k); cbn [bind]; [|intros H; discriminate H].
+    destruct (G SValue c v); cbn [bind]; intros H; discriminate H.
+Qed.
+
+Lemma sparts_of_inv : forall ts ps conc, sparts_of ts = Ok (ps, conc) ->
+  (conc = true -> Forall prim_part ps) /\ (ps = [] -> conc = true).
+Proof.
+  induction ts as [|t ts IH]; intros ps conc H; cbn [sparts_of] in H.
+  - inversion H; subst. split; intros; [constructor|reflexivity].
+  - destruct (spart_of t) as [[p ex]|e] eqn:Et; cbn [bind] in H; [|discriminate H].
+    destruct (sparts_of ts) as [[ps' conc']|e] eqn:Ets; cbn [bind] in H; [|discriminate H].
+    inversion H; subst. split; [|intros Hn; discriminate Hn].
+    intros Hc. apply andb_true_iff in Hc as [Hex Hc']. apply negb_true_iff in Hex. subst ex.
+    constructor; [exact (spart_of_prim t p Et)|]. exact (proj1 (IH _ _ eq_refl) Hc').
+Qed.
+
+Lemma spec_mod_keeps p m p' : spec_mod p m = Ok p' ->
+  sp_parts p' = sp_parts p /\ sp_concrete p' = sp_concrete p.
+Proof.
+  unfold spec_mod. destruct (sdt_of_name m).
+  - destruct (sp_dt p); intros H; inversion H; split; reflexivity.
+  - destruct (smt_of_name m); [|discriminate].
+    destruct (sp_mt p); try discriminate. destruct (sp_concrete p) eqn:Ec; [discriminate|].
+    intros H; inversion H; cbn. split; [reflexivity|]. first [exact Ec|reflexivity].
+Qed.
+
+Lemma spec_mods_keeps ms : forall p p', spec_mods p ms = Ok p' ->
+  sp_parts p' = sp_parts p /\ sp_concrete p' = sp_concrete p.
+Proof.
+  induction ms as [|m ms IH]; intros p p' H; cbn [spec_mods] in H.
+  - inversion H; split; reflexivity.
+  - destruct (spec_mod p m) as [q|e] eqn:Em; cbn [bind] in H; [|discriminate H].
+    apply spec_mod_keeps in Em as [E1 E2]. apply IH in H as [E3 E4]. split; congruence.
+Qed.
+
+Lemma spath_of_inv st sp : spath_of st = Ok sp ->
+  (sp_concrete sp = true -> Forall prim_part (sp_parts sp)) /\ (sp_parts sp = [] -> sp_concrete sp = true).
+Proof.
+  unfold spath_of. destruct (sparts_of (st_parts st)) as [[ps conc]|e] eqn:Ep; cbn [bind]; [|discriminate].
+  intros H. apply spec_mods_keeps in H as [E1 E2]. cbn [sp_parts sp_concrete] in E1, E2.
+  rewrite E1, E2. exact (sparts_of_inv _ _ _ Ep).
+Qed.
+
+(* ================================================================== *)
+(* D. the selection of a rule: get_data(doc, return_paths=True) as (value, path) pairs *)
+
+Definition plain (sp : spath) : Prop := sp_dt sp = SdNone /\ sp_mt sp = SmNone /\ sp_src sp = None.
+
+(* spec invariants of a path built through the API *)
+Definition sp_inv (sp : spath) : Prop :=
+  (sp_concrete sp = true -> Forall prim_part (sp_parts sp)) /\ (sp_parts sp = [] -> sp_concrete sp = true).
+
+Definition sel_of (w : list (list pyval * pyval)) : list (pyval * pyval) :=
+  map (fun pv => (snd pv, VTuple (fst pv))) w.
+
+Lemma sel_of_length w : List.length (sel_of w) = List.length w.
+Proof. apply map_length. Qed.
+
+Lemma map_fst_sel_of w : map fst (sel_of w) = map snd w.
+Proof. unfold sel_of. rewrite map_map. reflexivity. Qed.
+
+Lemma mapM_ok {X Y} (g : X -> Y) l : mapM (fun x => Ok (g x)) l = Ok (map g l).
+Proof. induction l as [|x l IH]; cbn [mapM map bind]; [reflexivity|]. rewrite IH. reflexivity. Qed.
+
+Definition as_pair (x : pyval) : res (pyval * pyval) :=
+  match x with VTuple [v; cp] => Ok (v, cp) | _ => Err TypeError end.
+
+Lemma out_pairs (w : list (list pyval * pyval)) :
+  map (fun x : pyval * list pyval => VTuple [fst x; VTuple (snd x)]) (combine (map snd w) (map fst w)) =
+  map (fun pv => VTuple [snd pv; VTuple (fst pv)]) w.
+Proof. induction w as [|[cp v] w IH]; cbn [map combine fst snd]; [reflexivity|]. rewrite IH. reflexivity. Qed.
+
+Lemma mapM_as_pair w : mapM as_pair (map (fun pv : list pyval * pyval => VTuple [snd pv; VTuple (fst pv)]) w) = Ok (sel_of w).
+Proof.
+  induction w as [|[cp v] w IH]; cbn [map mapM as_pair bind fst snd sel_of]; [reflexivity|].
+  fold (sel_of w). rewrite IH. reflexivity.
+Qed.
+
+Lemma selection_spec sp p doc :
+  path_rel sp p -> plain sp -> sp_inv sp ->
+  (sp_concrete sp = true -> (List.length (walk (sp_parts sp) [] doc) <= 1)%nat) ->
+  py_truthy doc = true ->
+  selection T p doc = Ok (sel_of (walk (sp_parts sp) [] doc)).
+Proof.
+  intros Hrel (Hdt & Hmt & Hsrc) (Hprim & Hnil) Hle Htr.
+  unfold selection. change res0' with res0. rewrite (get_data_spec sp p (Some doc) true Hrel).
+  destruct Hrel as (_ & Hc & _). rewrite Hc. clear Hc.
+  unfold spec_get_data. rewrite Hsrc, Htr, Hdt.
+  destruct (sp_parts sp) as [|s0 ss] eqn:Eparts.
+  - rewrite (Hnil eq_refl). cbn. reflexivity.
+  - cbv zeta. destruct (walk (s0 :: ss) [] doc) as [|pn w] eqn:Ew.
+    + cbn [bind]. destruct (sp_concrete sp); reflexivity.
+    + assert (Em : mapM (fun pv : list pyval * pyval => spec_dt SdNone (snd pv)) (pn :: w) = Ok (map snd (pn :: w))).
+      { apply (mapM_ok (fun pv : list pyval * pyval => snd pv)). }
+      rewrite Em. cbn [bind]. rewrite out_pairs.
+      unfold spec_multi. rewrite Hmt.
+      destruct (sp_concrete sp) eqn:Ec.
+      * specialize (Hle eq_refl). destruct w as [|pn2 w]; [|cbn [List.length] in Hle; lia].
+        destruct pn as [cp v]. reflexivity.
+      * cbn [bind]. apply (mapM_as_pair (pn :: w)).
+Qed.
+
+(* ================================================================== *)
+(* E. judging a selection                                               *)
+
+Fixpoint spec_fails (i : Z) (sel : list (list pyval * pyval)) (r : list bool) : list pyval :=
+  match sel, r with
+  | (cp, v) :: s', b :: r' =>
+      if b then spec_fails (i + 1) s' r'
+      else VTuple [VInt i; v; VTuple cp; VBool true] :: spec_fails (i + 1) s' r'
+  | _, _ => []
+  end.
+
+Lemma spec_verdict_unfold pn w t :
+  spec_verdict (pn :: w) t =
+  let result := map (sat_tree (qnorm t)) (combine (zidx 0 (List.length (pn :: w))) (map snd (pn :: w))) in
+  let fails := spec_fails 0 (pn :: w) result in
+  VTuple [VBool (forallb (fun b => b) result); VBool true; VInt (Z.of_nat (List.length fails)); VList fails].
+Proof. reflexivity. Qed.
+
+Lemma failures_go f : forall w res i,
+  (forall k, nth_error res k = Some false -> (1 <= num_reasons f (i + k))%nat) ->
+  map obs_failure (failures_of i f (sel_of w) res) = spec_fails (Z.of_nat i) w res.
+Proof.
+  induction w as [|[cp v] w IH]; intros res i H; [reflexivity|].
+  destruct res as [|b res]; [reflexivity|].
+  cbn [sel_of map failures_of spec_fails fst snd]. fold (sel_of w).
+  assert (Hi : Z.of_nat i + 1 = Z.of_nat (S i)) by lia.
+  assert (IH' : map obs_failure (failures_of (S i) f (sel_of w) res) = spec_fails (Z.of_nat i + 1) w res).
+  { rewrite Hi. apply IH. intros k Hk. specialize (H (S k) Hk). rewrite Nat.add_succ_r in H. exact H. }
+  destruct b; [exact IH'|].
+  cbn [map]. rewrite IH'. f_equal. unfold obs_failure. cbn [f_index f_value f_path f_reasons].
+  specialize (H O eq_refl). rewrite Nat.add_0_r in H.
+  assert (Hr : (0 <? Z.of_nat (num_reasons f i)) = true) by (apply Z.ltb_lt; lia).
+  rewrite Hr. reflexivity.
+Qed.
+
+(* every reported failure carries a concrete path (a tuple of keys) *)
+Definition tuple_paths (t : rtest) : Prop :=
+  Forall (fun fl => exists cp, f_path fl = VTuple cp) (rt_failures t).
+
+Lemma failures_of_paths f : forall w res i,
+  Forall (fun fl => exists cp, f_path fl = VTuple cp) (failures_of i f (sel_of w) res).
+Proof.
+  induction w as [|[cp v] w IH]; intros res i; [constructor|].
+  destruct res as [|b res]; [constructor|].
+  cbn [sel_of map failures_of fst snd]. fold (sel_of w).
+  destruct b; [apply IH|]. constructor; [cbn [f_path]; eauto|apply IH].
+Qed.
+
+Lemma has_nvl_cond_of n :
+  forallb (fun cq : scls * dsl => dkind_eqb (scls_kind (fst cq)) DValue) (qleaves n) = true ->
+  has_non_value_leaf (cond_of n) = false.
+Proof.
+  induction n as [c q| |o a IHa b IHb]; cbn [qleaves forallb cond_of has_non_value_leaf fst].
+  - rewrite expected_kind, andb_true_r. intros ->. reflexivity.
+  - reflexivity.
+  - rewrite forallb_app. intros H. apply andb_true_iff in H as [Ha Hb]. rewrite (IHa Ha), (IHb Hb). reflexivity.
+Qed.
+
+Lemma top_check_ok {A} (c : cond A) : has_non_value_leaf c = false ->
+  match c with
+  | CLeaf l => match l_kind l with DKey => Err TypeError | _ => Ok tt end
+  | _ => Ok tt
+  end = Ok tt.
+Proof.
+  destruct c as [l|o a b]; [|reflexivity]. cbn [has_non_value_leaf].
+  destruct (l_kind l); cbn; intros H; try discriminate H; reflexivity.
+Qed.
+
+Definition lit_cond (t : qtree) : cond arg1 := cond_map pyval arg1 ALit (cond_of (qnorm t)).
+
+(* RuleTest._test: the verdict on the document the rule is judged on *)
+Lemma judge_spec p t casts jd w :
+  selection T p jd = Ok (sel_of w) ->
+  qtree_ok t = true -> value_only t = true ->
+  exists rt, judge T {| r_path := p; r_cond := lit_cond t; r_cast := casts |} jd = Ok rt /\
+             obs_rtest rt = spec_verdict w t /\ rt_data rt = jd /\ tuple_paths rt.
+Proof.
+  intros Hsel Hok Hvo. unfold judge. cbn [r_path r_cond]. rewrite Hsel. cbn [bind].
+  destruct w as [|pn w].
+  - cbn [sel_of map]. eexists; split; [reflexivity|]. split; [reflexivity|]. split; [reflexivity|constructor].
+  - remember (pn :: w) as W eqn:EW.
+    assert (Hne : exists x xs, sel_of W = x :: xs) by (subst W; cbn [sel_of map]; eauto).
+    destruct Hne as [x [xs Ex]]. rewrite Ex. rewrite <- Ex. clear x xs Ex.
+    assert (Hnv : has_non_value_leaf (lit_cond t) = false).
+    { unfold lit_cond. rewrite has_non_value_leaf_map. apply has_nvl_cond_of.
+      rewrite qleaves_qnorm. exact Hvo. }
+    rewrite (top_check_ok _ Hnv), Hnv. cbn [bind].
+    unfold lit_cond at 1. rewrite filter_tree_lit.
+    set (d := {| d_is_list := true; d_keys := zrange_from 0 (List.length (sel_of W)); d_vals := map fst (sel_of W) |}).
+    assert (Hlen : List.length (map snd W) = List.length W) by apply map_length.
+    destruct (filter_cond_of (qnorm t) d (VList (map snd W))) as [f [Ef Hr]].
+    + rewrite qtree_ok_qnorm. exact Hok.
+    + cbn [d d_keys doc_items]. rewrite zrange_zidx, sel_of_length, Hlen.
+      rewrite map_fst_combine by (rewrite zidx_length; symmetry; exact Hlen). reflexivity.
+    + cbn [d d_vals doc_items]. rewrite map_fst_sel_of.
+      rewrite map_snd_combine by (rewrite zidx_length; reflexivity). reflexivity.
+    + rewrite Ef. cbn [bind]. eexists; split; [reflexivity|]. split; [|split; [reflexivity|apply failures_of_paths]].
+      unfold obs_rtest. cbn [rt_valid rt_tested rt_failures].
+      subst W. rewrite spec_verdict_unfold. cbv zeta. remember (pn :: w) as W eqn:EW.
+      cbn [doc_items] in Hr. rewrite Hlen in Hr. rewrite <- Hr.
+      assert (HF : map obs_failure (failures_of 0 f (sel_of W) (fr_result f)) = spec_fails 0 W (fr_result f)).
+      { apply (failures_go f W (fr_result f) 0).
+        intros k Hk. exact (reasons_nonempty T pyval res0 _ d f Ef k Hk). }
+      rewrite <- HF, map_length. reflexivity.
+Qed.
+
+(* ================================================================== *)
+(* F. construction of a rule                                            *)
+
+Definition rule_rel (sp : spath) (sr : srule) (r : rule) : Prop :=
+  path_rel sp (r_path r) /\ r_cond r = lit_cond (sr_cond sr) /\ r_cast r = sr_cast sr.
+
+(* the spec side of Rule(path, condition, cast): the path, then the condition *)
+Definition spath1 (sr : srule) : res spath :=
+  let* sp := spath_of (sr_path sr) in
+  let* _ := if buildable (sr_cond sr) then Ok tt else Err TypeError in Ok sp.
+
+Lemma mk_rule_spec sr : srule_ok sr = true ->
+  match spath1 sr with
+  | Err e => mk_rule T (srule_term sr) = Err e
+  | Ok sp => exists r, mk_rule T (srule_term sr) = Ok r /\ rule_rel sp sr r /\ sp_inv sp
+  end.
+Proof.
+  unfold srule_ok. intros H. apply andb_true_iff in H as [Hp Hc].
+  unfold spath1, mk_rule, srule_term. cbn [rt_path_t rt_cond_t rt_cast_t].
+  change id0 with idlit.
+  destruct (mk_path_spec (sr_path sr) Hp) as [[e [E1 E2]]|[sp [p [E1 [E2 Hrel]]]]]; rewrite E1, E2; cbn [bind].
+  - reflexivity.
+  - rewrite build1_lit, (build_qterm _ Hc). unfold build_expect, buildable.
+    destruct (qmixed (qnorm (sr_cond sr))); cbn [negb rmap bind]; [reflexivity|].
+    eexists; split; [reflexivity|]. split.
+    + unfold rule_rel. cbn [r_path r_cond r_cast]. auto.
+    + exact (spath_of_inv _ _ E1).
+Qed.
+
+(* ================================================================== *)
+(* G. casts: writes into the copy along paths of the original           *)
+
+(* [sk a b]: b is a with some string leaves replaced (the shape of the containers is unchanged) *)
+Inductive sk : pyval -> pyval -> Prop :=
+| sk_refl a : sk a a
+| sk_str s b : sk (VStr s) b
+| sk_list l l' : Forall2 sk l l' -> sk (VList l) (VList l')
+| sk_dict d d' : Forall2 (fun e e' : pyval * pyval => fst e = fst e' /\ sk (snd e) (snd e')) d d' ->
+                 sk (VDict d) (VDict d').
+
+Lemma Forall2_refl_sk l : Forall2 sk l l.
+Proof. induction l; constructor; [apply sk_refl|assumption]. Qed.
+
+Lemma Forall2_refl_ske (d : list (pyval * pyval)) :
+  Forall2 (fun e e' : pyval * pyval => fst e = fst e' /\ sk (snd e) (snd e')) d d.
+Proof. induction d; constructor; [split; [reflexivity|apply sk_refl]|assumption]. Qed.
+
+Lemma sk_list_inv l b : sk (VList l) b -> exists l', b = VList l' /\ Forall2 sk l l'.
+Proof. intros H. inversion H; subst; eexists; split; try reflexivity; [apply Forall2_refl_sk|assumption]. Qed.
+
+Lemma sk_dict_inv d b : sk (VDict d) b ->
+  exists d', b = VDict d' /\ Forall2 (fun e e' : pyval * pyval => fst e = fst e' /\ sk (snd e) (snd e')) d d'.
+Proof. intros H. inversion H; subst; eexists; split; try reflexivity; [apply Forall2_refl_ske|assumption]. Qed.
+
+Lemma dict_look_sk k : forall d d' c,
+  Forall2 (fun e e' : pyval * pyval => fst e = fst e' /\ sk (snd e) (snd e')) d d' ->
+  dict_look k d = Some c -> exists c', dict_look k d' = Some c' /\ sk c c'.
+Proof.
+  induction d as [|[k2 v2] d IH]; intros d' c HF Hl; [discriminate Hl|].
+  inversion HF as [|? [k2' v2'] ? d2 [Hk Hv] HF']; subst. cbn [fst snd] in Hk, Hv. subst k2'.
+  cbn [dict_look] in *. destruct (py_eq k k2).
+  - inversion Hl; subst. eauto.
+  - apply IH; assumption.
+Qed.
+
+Lemma dict_set_sk k x : forall d d' c,
+  Forall2 (fun e e' : pyval * pyval => fst e = fst e' /\ sk (snd e) (snd e')) d d' ->
+  dict_look k d = Some c -> sk c x ->
+  exists d'', dict_set k x d' = Some d'' /\
+              Forall2 (fun e e' : pyval * pyval => fst e = fst e' /\ sk (snd e) (snd e')) d d''.
+Proof.
+  induction d as [|[k2 v2] d IH]; intros d' c HF Hl Hx; [discriminate Hl|].
+  inversion HF as [|? [k2' v2'] ? d2 [Hk Hv] HF']; subst. cbn [fst snd] in Hk, Hv. subst k2'.
+  cbn [dict_look] in Hl. cbn [dict_set]. destruct (py_eq k k2).
+  - inversion Hl; subst. eexists; split; [reflexivity|]. constructor; [split; [reflexivity|exact Hx]|exact HF'].
+  - destruct (IH d2 c HF' Hl Hx) as [d'' [Es HF'']]. rewrite Es.
+    eexists; split; [reflexivity|]. constructor; [split; [reflexivity|exact Hv]|exact HF''].
+Qed.
+
+Lemma Forall2_len {X Y} (R : X -> Y -> Prop) l l' : Forall2 R l l' -> List.length l = List.length l'.
+Proof. induction 1; cbn; [reflexivity|]. f_equal. assumption. Qed.
+
+Lemma norm_index_len {X Y} (l : list X) (l' : list Y) k :
+  List.length l = List.length l' -> norm_index l k = norm_index l' k.
+Proof. unfold norm_index. intros ->. reflexivity. Qed.
+
+Lemma list_set_sk x : forall l l' i c,
+  Forall2 sk l l' -> nth_error l i = Some c -> sk c x ->
+  exists l'', list_set l' i x = Some l'' /\ Forall2 sk l l''.
+Proof.
+  induction l as [|y l IH]; intros l' i c HF Hn Hx; [destruct i; discriminate Hn|].
+  inversion HF as [|? y' ? l2 Hy HF']; subst.
+  destruct i as [|i]; cbn [nth_error list_set] in *.
+  - inversion Hn; subst. eexists; split; [reflexivity|]. constructor; assumption.
+  - destruct (IH l2 i c HF' Hn Hx) as [l'' [Es HF'']]. rewrite Es.
+    eexists; split; [reflexivity|]. constructor; assumption.
+Qed.
+
+Lemma nth_error_sk : forall l l' i c, Forall2 sk l l' -> nth_error l i = Some c ->
+  exists c', nth_error l' i = Some c' /\ sk c c'.
+Proof.
+  induction l as [|y l IH]; intros l' i c HF Hn; [destruct i; discriminate Hn|].
+  inversion HF as [|? y' ? l2 Hy HF']; subst.
+  destruct i as [|i]; cbn [nth_error] in *.
+  - inversion Hn; subst. eauto.
+  - apply IH; assumption.
+Qed.
+
+(* writing at a path of the original that holds a string succeeds in the copy *)
+Lemma sk_set x : forall cp a b s, sk a b -> get_at a cp = Some (VStr s) ->
+  exists b', set_at b cp x = Some b' /\ sk a b'.
+Proof.
+  induction cp as [|k r IH]; intros a b s Hsk Hg.
+  - cbn [get_at] in Hg. inversion Hg; subst. eexists; split; [reflexivity|apply sk_str].
+  - cbn [get_at] in Hg. destruct a; try discriminate Hg.
+    + destruct (sk_list_inv _ _ Hsk) as [l' [-> HF]].
+      destruct (norm_index l k) as [i|] eqn:Ei; [|discriminate Hg].
+      destruct (nth_error l i) as [c|] eqn:En; [|discriminate Hg].
+      destruct (nth_error_sk _ _ _ _ HF En) as [c' [En' Hc]].
+      destruct (IH c c' s Hc Hg) as [c'' [Es Hc'']].
+      destruct (list_set_sk c'' _ _ _ _ HF En Hc'') as [l'' [El HF'']].
+      cbn [set_at]. rewrite <- (norm_index_len l l' k (Forall2_len _ _ _ HF)), Ei, En', Es, El.
+      eexists; split; [reflexivity|]. apply sk_list. exact HF''.
+    + destruct (sk_dict_inv _ _ Hsk) as [d' [-> HF]].
+      destruct (dict_look k d) as [c|] eqn:El; [|discriminate Hg].
+      destruct (dict_look_sk _ _ _ _ HF El) as [c' [El' Hc]].
+      destruct (IH c c' s Hc Hg) as [c'' [Es Hc'']].
+      destruct (dict_set_sk k c'' _ _ _ HF El Hc'') as [d'' [Ed HF'']].
+      cbn [set_at]. rewrite El', Es, Ed.
+      eexists; split; [reflexivity|]. apply sk_dict. exact HF''.
+Qed.
+
+Lemma sk_nonempty a b : sk a b -> nonempty_container a = true -> nonempty_container b = true.
+Proof.
+  intros Hsk Hne. destruct a; try discriminate Hne.
+  - destruct (sk_list_inv _ _ Hsk) as [l' [-> HF]]. destruct l; [discriminate Hne|]. inversion HF; reflexivity.
+  - destruct (sk_dict_inv _ _ Hsk) as [d' [-> HF]]. destruct d; [discriminate Hne|]. inversion HF; reflexivity.
+Qed.
+
+Lemma nonempty_truthy a : nonempty_container a = true -> py_truthy a = true.
+Proof. destruct a; try discriminate; [destruct l|destruct d]; try discriminate; reflexivity. Qed.
+
+(* well-formedness is preserved by writes of well-formed values *)
+Lemma wf_dict_join d : wf_entries d = true -> keys_distinct (map fst d) = true -> wf_val (VDict d) = true.
+Proof. intros H1 H2. cbn [wf_val]. fold wf_entries. rewrite H1, H2. reflexivity. Qed.
+
+Lemma dict_look_wf k : forall d c, wf_entries d = true -> dict_look k d = Some c -> wf_val c = true.
+Proof.
+  induction d as [|[k2 v2] d IH]; intros c Hwf Hl; [discriminate Hl|].
+  cbn [wf_entries] in Hwf. rewrite !andb_true_iff in Hwf. destruct Hwf as [[[Hk Hh] Hv] Hr].
+  cbn [dict_look] in Hl. destruct (py_eq k k2); [inversion Hl; subst; exact Hv|exact (IH c Hr Hl)].
+Qed.
+
+Lemma dict_set_wf k x : forall d d', dict_set k x d = Some d' ->
+  map fst d' = map fst d /\ (wf_entries d = true -> wf_val x = true -> wf_entries d' = true).
+Proof.
+  induction d as [|[k2 v2] d IH]; intros d' Hs; [discriminate Hs|].
+  cbn [dict_set] in Hs. destruct (py_eq k k2).
+  - inversion Hs; subst. split; [reflexivity|]. cbn [wf_entries]. intros Hwf Hx.
+    rewrite !andb_true_iff in *. tauto.
+  - destruct (dict_set k x d) as [r'|] eqn:Er; [|discriminate Hs]. inversion Hs; subst.
+    destruct (IH r' eq_refl) as [Hk Hw]. split; [cbn [map fst]; rewrite Hk; reflexivity|].
+    cbn [wf_entries]. intros Hwf Hx. rewrite !andb_true_iff in *. destruct Hwf as [[[H1 H2] H3] H4].
+    repeat split; auto.
+Qed.
+
+Lemma list_set_wf x : forall (l : list pyval) i l', list_set l i x = Some l' ->
+  forallb wf_val l = true -> wf_val x = true -> forallb wf_val l' = true.
+Proof.
+  induction l as [|y l IH]; intros i l' Hs Hwf Hx; [destruct i; discriminate Hs|].
+  cbn [forallb] in Hwf. apply andb_true_iff in Hwf as [Hy Hl].
+  destruct i as [|i]; cbn [list_set] in Hs.
+  - inversion Hs; subst. cbn [forallb]. rewrite Hx, Hl. reflexivity.
+  - destruct (list_set l i x) as [r'|] eqn:Er; [|discriminate Hs]. inversion Hs; subst.
+    cbn [forallb]. rewrite Hy, (IH i r' Er Hl Hx). reflexivity.
+Qed.
+
+Lemma set_at_wf x : wf_val x = true -> forall cp b b', wf_val b = true -> set_at b cp x = Some b' -> wf_val b' = true.
+Proof.
+  intros Hx. induction cp as [|k r IH]; intros b b' Hwf Hs; cbn [set_at] in Hs.
+  - inversion Hs; subst. exact Hx.
+  - destruct b; try discriminate Hs.
+    + destruct (norm_index l k) as [i|]; [|discriminate Hs].
+      destruct (nth_error l i) as [c|] eqn:En; [|discriminate Hs].
+      destruct (set_at c r x) as [c'|] eqn:Ec; [|discriminate Hs].
+      destruct (list_set l i c') as [l'|] eqn:El; [|discriminate Hs]. inversion Hs; subst.
+      cbn [wf_val] in *. apply (list_set_wf c' l i l' El Hwf).
+      apply (IH c c'); [|exact Ec]. rewrite forallb_forall in Hwf. apply Hwf. eapply nth_error_In; eauto.
+    + destruct (dict_look k d) as [c|] eqn:El; [|discriminate Hs].
+      destruct (set_at c r x) as [c'|] eqn:Ec; [|discriminate Hs].
+      destruct (dict_set k c' d) as [d'|] eqn:Ed; [|discriminate Hs]. inversion Hs; subst.
+      destruct (wf_dict_split _ Hwf) as [Hent Hkd].
+      destruct (dict_set_wf k c' d d' Ed) as [Hk Hw].
+      apply wf_dict_join; [|rewrite Hk; exact Hkd].
+      apply Hw; [exact Hent|]. apply (IH c c'); [|exact Ec]. exact (dict_look_wf k d c Hent El).
+Qed.
+
+Lemma index_along_get_at : forall cp v, index_along v cp = get_at v cp.
+Proof.
+  induction cp as [|k r IH]; intros v; cbn [index_along get_at]; [reflexivity|].
+  destruct v; try reflexivity.
+  - unfold norm_index, list_index. destruct (int_of k) as [i|]; [|reflexivity].
+    match goal with |- context [if ?c then None else _] => destruct c end; [reflexivity|].
+    destruct (nth_error l _); [apply IH|reflexivity].
+  - destruct (dict_look k d); [apply IH|reflexivity].
+Qed.
+
+Lemma first_cast_spec casts v : first_cast casts v = spec_first_cast casts v.
+Proof.
+  induction casts as [|[t f] r IH]; cbn [first_cast spec_first_cast]; [reflexivity|].
+  rewrite IH. reflexivity.
+Qed.
+
+Lemma apply_cast_ok f v v' : apply_cast f v = Ok v' -> (exists s, v = VStr s) /\ wf_val v' = true.
+Proof.
+  destruct f, v; cbn [apply_cast]; try discriminate.
+  - destruct (String.eqb _ _); [intros H; inversion H; split; [eauto|reflexivity]|].
+    destruct (String.eqb _ _); [intros H; inversion H; split; [eauto|reflexivity]|discriminate].
+  - destruct (int_of_str s); [intros H; inversion H; split; [eauto|reflexivity]|discriminate].
+Qed.
+
+Lemma spec_first_cast_ok casts v v' : spec_first_cast casts v = Some v' ->
+  (exists s, v = VStr s) /\ wf_val v' = true.
+Proof.
+  induction casts as [|[t f] r IH]; cbn [spec_first_cast]; [discriminate|].
+  destruct (inst_of v t); [|exact IH].
+  destruct (apply_cast f v) as [x|e] eqn:Ea; [|exact IH].
+  intros H; inversion H; subst. exact (apply_cast_ok f v v' Ea).
+Qed.
+
+(* the cast loop never fails and computes cast_doc *)
+Lemma cast_loop_spec casts doc : forall w copy,
+  (forall cp v, In (cp, v) w -> get_at doc cp = Some v) ->
+  sk doc copy -> wf_val copy = true ->
+  cast_loop casts (sel_of w) copy = Ok (cast_doc casts w copy) /\
+  sk doc (cast_doc casts w copy) /\ wf_val (cast_doc casts w copy) = true.
+Proof.
+  unfold cast_doc.
+  induction w as [|[cp v] w IH]; intros copy Htr Hsk Hwf.
+  - cbn. auto.
+  - cbn [sel_of map cast_loop fold_left fst snd path_keys]. fold (sel_of w).
+    assert (Htr' : forall cp v, In (cp, v) w -> get_at doc cp = Some v) by (intros; apply Htr; right; assumption).
+    rewrite first_cast_spec.
+    destruct (spec_first_cast casts v) as [v'|] eqn:Ef; [|apply IH; assumption].
+    destruct cp as [|k r]; [apply IH; assumption|].
+    destruct (spec_first_cast_ok _ _ _ Ef) as [[s ->] Hv'].
+    destruct (sk_set v' (k :: r) doc copy s Hsk (Htr _ _ (or_introl eq_refl))) as [copy' [Es Hsk']].
+    rewrite Es. apply IH; [assumption|assumption|].
+    exact (set_at_wf v' Hv' _ _ _ Hwf Es).
+Qed.
+
+(* ================================================================== *)
+(* H. Rule.test                                                         *)
+
+Lemma walk_le1 sp d : sp_inv sp -> wf_val d = true -> sp_concrete sp = true ->
+  (List.length (walk (sp_parts sp) [] d) <= 1)%nat.
+Proof. intros [Hprim _] Hwf Hc. apply walk_prim_le1; [exact (Hprim Hc)|exact Hwf]. Qed.
+
+Lemma walk_truthful_get ps doc : wf_val doc = true ->
+  forall cp v, In (cp, v) (walk ps [] doc) -> get_at doc cp = Some v.
+Proof. intros Hwf cp v Hin. rewrite <- index_along_get_at. exact (C04_truthful ps doc cp v Hwf Hin). Qed.
+
+Lemma rule_test_spec sp sr r doc copy :
+  rule_rel sp sr r -> plain sp -> sp_inv sp ->
+  qtree_ok (sr_cond sr) = true -> value_only (sr_cond sr) = true ->
+  wf_val doc = true -> nonempty_container doc = true -> wf_val copy = true -> sk doc copy ->
+  exists t, rule_test T r doc (Some copy) = Ok (t, snd (spec_rule_in_schema sp sr doc copy)) /\
+            obs_rtest t = fst (spec_rule_in_schema sp sr doc copy) /\
+            rt_data t = match sr_cast sr with [] => doc | _ => snd (spec_rule_in_schema sp sr doc copy) end /\
+            wf_val (snd (spec_rule_in_schema sp sr doc copy)) = true /\
+            sk doc (snd (spec_rule_in_schema sp sr doc copy)) /\ tuple_paths t.
+Proof.
+  intros (Hp & Hc & Hcast) Hplain Hinv Hok Hvo Hwf Hne Hwfc Hsk.
+  destruct r as [p c casts]. cbn [r_path r_cond r_cast] in Hp, Hc, Hcast. subst c casts.
+  unfold rule_test, spec_rule_in_schema. cbn [r_cast r_path].
+  destruct (mk_data_items doc (nonempty_shape doc Hne)) as [d [Ed _]]. rewrite Ed. cbn [bind].
+  pose proof (selection_spec sp p doc Hp Hplain Hinv (walk_le1 sp doc Hinv Hwf) (nonempty_truthy doc Hne)) as Hsel.
+  destruct (sr_cast sr) as [|c0 cs] eqn:Ecast.
+  - destruct (judge_spec p (sr_cond sr) [] doc _ Hsel Hok Hvo) as [rt [Ej [Ho [Hd Htp]]]].
+    rewrite Ej. cbn [bind fst snd]. exists rt. repeat split; auto.
+  - rewrite Hsel. cbn [bind].
+    destruct (cast_loop_spec (c0 :: cs) doc (walk (sp_parts sp) [] doc) copy
+                (walk_truthful_get _ doc Hwf) Hsk Hwfc) as [El [Hsk' Hwf']].
+    rewrite El. cbn [bind].
+    set (cp1 := cast_doc (c0 :: cs) (walk (sp_parts sp) [] doc) copy) in *.
+    pose proof (selection_spec sp p cp1 Hp Hplain Hinv (walk_le1 sp cp1 Hinv Hwf')
+                  (nonempty_truthy cp1 (sk_nonempty doc cp1 Hsk' Hne))) as Hsel1.
+    destruct (judge_spec p (sr_cond sr) (c0 :: cs) cp1 _ Hsel1 Hok Hvo) as [rt [Ej [Ho [Hd Htp]]]].
+    rewrite Ej. cbn [bind fst snd]. exists rt. repeat split; auto.
+Qed.
+
+Lemma rule_test_none r doc : rule_test T r doc None = rule_test T r doc (Some doc).
+Proof. unfold rule_test. destruct (r_cast r); reflexivity. Qed.
+
+Lemma plain_of sp : sp_dt sp = SdNone -> sp_mt sp = SmNone -> sp_src sp = None -> plain sp.
+Proof. unfold plain. auto. Qed.
+
+(* GOAL 1 (C05 / C15), for well-formed non-empty documents.
+   The two extra hypotheses are necessary: see the counterexamples at the end of the file. *)
+Theorem rule_model_meets_spec_partial : forall (r : srule) (doc : pyval) x,
+  srule_ok r = true -> wf_val doc = true -> nonempty_container doc = true ->
+  spec_rule_test r doc = Some x -> run_rule_test (srule_term r) doc = x.
+Proof.
+  intros r doc x Hok Hwf Hne. unfold spec_rule_test, run_rule_test. rewrite Hne. cbn [negb].
+  pose proof (mk_rule_spec r Hok) as Hmk. unfold spath1 in Hmk.
+  assert (Hc : qtree_ok (sr_cond r) = true).
+  { unfold srule_ok in Hok. apply andb_true_iff in Hok. apply Hok. }
+  destruct (spath_of (sr_path r)) as [sp|e] eqn:Esp; cbn [bind] in Hmk.
+  2:{ intros H; inversion H; subst x. rewrite Hmk. reflexivity. }
+  destruct (sp_dt sp) eqn:Edt; try discriminate.
+  destruct (sp_mt sp) eqn:Emt; try discriminate.
+  destruct (sp_src sp) eqn:Esrc; try discriminate.
+  destruct (buildable (sr_cond r)) eqn:Eb; cbn [negb bind] in *.
+  2:{ intros H; inversion H; subst x. rewrite Hmk. reflexivity. }
+  destruct (value_only (sr_cond r)) eqn:Evo; cbn [negb]; [|discriminate].
+  intros H; inversion H; subst x; clear H.
+  destruct Hmk as [rl [Emk [Hrel Hinv]]]. rewrite Emk. cbn [bind].
+  rewrite rule_test_none.
+  destruct (rule_test_spec sp r rl doc doc Hrel (plain_of sp Edt Emt Esrc) Hinv Hc Evo Hwf Hne Hwf (sk_refl doc))
+    as [t [Et [Ho [Hd _]]]].
+  rewrite Et. cbn [bind]. rewrite Ho, Hd.
+  unfold spec_rule_in_schema, judged_doc. destruct (sr_cast r); reflexivity.
+Qed.
+
+(* ================================================================== *)
+(* I. schemas                                                           *)
+
+Definition rule_ok3 (pr : spath * srule) (rl : rule) : Prop :=
+  rule_rel (fst pr) (snd pr) rl /\ sp_inv (fst pr) /\ qtree_ok (sr_cond (snd pr)) = true.
+
+Lemma spaths_of_cons r rest :
+  spaths_of (r :: rest) = let* sp := spath1 r in let* xs := spaths_of rest in Ok ((sp, r) :: xs).
+Proof.
+  cbn [spaths_of]. unfold spath1. destruct (spath_of (sr_path r)); cbn [bind]; [|reflexivity].
+  destruct (buildable (sr_cond r)); reflexivity.
+Qed.
+
+Lemma mk_rules_spec rs : forallb srule_ok rs = true ->
+  match spaths_of rs with
+  | Err e => mk_rules T (map srule_term rs) = Err e
+  | Ok prs => exists rls, mk_rules T (map srule_term rs) = Ok rls /\ Forall2 rule_ok3 prs rls
+  end.
+Proof.
+  induction rs as [|r rs IH]; intros Hok.
+  - cbn. exists []. split; [reflexivity|constructor].
+  - cbn [forallb] in Hok. apply andb_true_iff in Hok as [Hr Hrs]. specialize (IH Hrs).
+    rewrite spaths_of_cons. cbn [map mk_rules].
+    pose proof (mk_rule_spec r Hr) as Hmk.
+    assert (Hc : qtree_ok (sr_cond r) = true).
+    { unfold srule_ok in Hr. apply andb_true_iff in Hr. apply Hr. }
+    destruct (spath1 r) as [sp|e]; cbn [bind].
+    + destruct Hmk as [rl [Emk [Hrel Hinv]]]. rewrite Emk. cbn [bind].
+      destruct (spaths_of rs) as [prs|e]; cbn [bind].
+      * destruct IH as [rls [E2 HF]]. rewrite E2. cbn [bind].
+        eexists; split; [reflexivity|]. constructor; [|exact HF]. unfold rule_ok3. cbn [fst snd]. auto.
+      * rewrite IH. reflexivity.
+    + rewrite Hmk. reflexivity.
+Qed.
+
+Lemma rule_ok3_len pr rl : rule_ok3 pr rl ->
+  List.length (p_parts (r_path rl)) = List.length (sp_parts (fst pr)).
+Proof. intros [[[HF _] _] _]. symmetry. exact (Forall2_len _ _ _ HF). Qed.
+
+Lemma insert_rel x y : rule_ok3 x y -> forall l l', Forall2 rule_ok3 l l' ->
+  Forall2 rule_ok3 (sinsert_rule x l) (insert_by_len y l').
+Proof.
+  intros Hxy. induction 1 as [|a b l l' Hab HF IH]; cbn [sinsert_rule insert_by_len].
+  - constructor; [exact Hxy|constructor].
+  - rewrite (rule_ok3_len _ _ Hab), (rule_ok3_len _ _ Hxy).
+    destruct (List.length (sp_parts (fst a)) <? List.length (sp_parts (fst x)))%nat.
+    + constructor; assumption.
+    + constructor; [exact Hxy|]. constructor; assumption.
+Qed.
+
+Lemma sort_rel prs rls : Forall2 rule_ok3 prs rls -> Forall2 rule_ok3 (ssort_rules prs) (sort_rules rls).
+Proof.
+  unfold ssort_rules, sort_rules. induction 1 as [|a b l l' Hab HF IH]; cbn [fold_right]; [constructor|].
+  apply insert_rel; assumption.
+Qed.
+
+Lemma forallb_sinsert (P : spath * srule -> bool) x : forall l,
+  forallb P (sinsert_rule x l) = P x && forallb P l.
+Proof.
+  induction l as [|y l IH]; cbn [sinsert_rule forallb]; [reflexivity|].
+  destruct (List.length (sp_parts (fst y)) <? List.length (sp_parts (fst x)))%nat; cbn [forallb]; [|reflexivity].
+  rewrite IH. destruct (P x), (P y); reflexivity.
+Qed.
+
+Lemma forallb_ssort (P : spath * srule -> bool) prs : forallb P (ssort_rules prs) = forallb P prs.
+Proof.
+  unfold ssort_rules. induction prs as [|x l IH]; cbn [fold_right forallb]; [reflexivity|].
+  rewrite forallb_sinsert, IH. reflexivity.
+Qed.
+
+Lemma in_domain_inv sp sr : rule_in_domain sp sr = true -> plain sp /\ value_only (sr_cond sr) = true.
+Proof.
+  unfold rule_in_domain, plain.
+  destruct (sp_dt sp); try discriminate. destruct (sp_mt sp); try discriminate.
+  destruct (sp_src sp); try discriminate. auto.
+Qed.
+
+Lemma run_rules_spec doc : wf_val doc = true -> nonempty_container doc = true ->
+  forall prs rls, Forall2 rule_ok3 prs rls ->
+  forallb (fun pr => rule_in_domain (fst pr) (snd pr)) prs = true ->
+  forall copy, wf_val copy = true -> sk doc copy ->
+  exists ts, run_rules T rls doc copy = Ok (ts, snd (spec_run_rules prs doc copy)) /\
+             map obs_rtest ts = fst (spec_run_rules prs doc copy) /\ Forall tuple_paths ts.
+Proof.
+  intros Hwf Hne. induction 1 as [|[sp sr] rl prs rls Hab HF IH]; intros Hdom copy Hwfc Hsk.
+  - cbn. exists []. auto.
+  - cbn [forallb fst snd] in Hdom. apply andb_true_iff in Hdom as [Hd Hdom].
+    apply in_domain_inv in Hd as [Hplain Hvo].
+    destruct Hab as (Hrel & Hinv & Hok). cbn [fst snd] in Hrel, Hinv, Hok.
+    destruct (rule_test_spec sp sr rl doc copy Hrel Hplain Hinv Hok Hvo Hwf Hne Hwfc Hsk)
+      as [t [Et [Ho [_ [Hwf' [Hsk' Htp]]]]]].
+    cbn [run_rules spec_run_rules]. rewrite Et. cbn [bind].
+    destruct (spec_rule_in_schema sp sr doc copy) as [v copy']. cbn [fst snd] in *.
+    destruct (IH Hdom copy' Hwf' Hsk') as [ts [Ets [Hos Htps]]].
+    rewrite Ets. cbn [bind].
+    destruct (spec_run_rules prs doc copy') as [vs copy'']. cbn [fst snd] in *.
+    exists (t :: ts). split; [reflexivity|]. split; [cbn [map]; rewrite Ho, Hos; reflexivity|].
+    constructor; assumption.
+Qed.
+
+(* refreshing the failure values of rules judged on the shared copy *)
+Lemma obs_refresh_failure final f : (exists cp, f_path f = VTuple cp) ->
+  obs_failure (refresh_failure final f) = spec_refresh_failure final (obs_failure f).
+Proof.
+  intros [cp Hcp]. destruct f as [i v pth n]. cbn [f_path] in Hcp. subst pth.
+  unfold refresh_failure, obs_failure, spec_refresh_failure. cbn [f_index f_value f_path f_reasons path_keys].
+  destruct v; try reflexivity; destruct (get_at final cp); reflexivity.
+Qed.
+
+Lemma obs_refresh_test final sr rl t : r_cast rl = sr_cast sr -> tuple_paths t ->
+  obs_rtest (refresh_test final rl t) = spec_refresh_verdict final sr (obs_rtest t).
+Proof.
+  intros Hc Htp. unfold refresh_test, spec_refresh_verdict. rewrite Hc.
+  destruct (sr_cast sr) as [|c0 cs]; [reflexivity|].
+  unfold obs_rtest. cbn [rt_valid rt_tested rt_failures]. rewrite map_length.
+  assert (HM : map obs_failure (map (refresh_failure final) (rt_failures t)) =
+               map (spec_refresh_failure final) (map obs_failure (rt_failures t))).
+  { unfold tuple_paths in Htp.
+    induction Htp as [|f fs Hf Hfs IH]; cbn [map]; [reflexivity|].
+    rewrite IH, (obs_refresh_failure final f Hf). reflexivity. }
+  rewrite HM. reflexivity.
+Qed.
+
+Lemma refresh_spec final : forall prs rls, Forall2 rule_ok3 prs rls ->
+  forall ts, Forall tuple_paths ts ->
+  map obs_rtest (refresh_tests final rls ts) = spec_refresh final prs (map obs_rtest ts).
+Proof.
+  induction 1 as [|[sp sr] rl prs rls Hab HF IH]; intros ts Hts.
+  - reflexivity.
+  - destruct ts as [|t ts]; [reflexivity|].
+    inversion Hts as [|? ? Ht Hts']; subst.
+    cbn [refresh_tests spec_refresh map]. rewrite (IH ts Hts').
+    destruct Hab as ((_ & _ & Hc) & _). cbn [fst snd] in Hc.
+    rewrite (obs_refresh_test final sr rl t Hc Ht). reflexivity.
+Qed.
+
+Lemma agg_valid ts : forallb rt_valid ts = forallb verdict_valid (map obs_rtest ts).
+Proof. induction ts as [|t ts IH]; cbn [forallb map]; [reflexivity|]. rewrite IH. reflexivity. Qed.
+
+Lemma agg_nfail ts :
+  Z.of_nat (fold_right (fun t n => (List.length (rt_failures t) + n)%nat) O ts) =
+  fold_right (fun v n => verdict_nfail v + n) 0 (map obs_rtest ts).
+Proof.
+  induction ts as [|t ts IH]; cbn [fold_right map]; [reflexivity|].
+  rewrite Nat2Z.inj_add, IH. reflexivity.
+Qed.
+
+Lemma agg_tested ts : List.length (filter rt_tested ts) = List.length (filter verdict_tested (map obs_rtest ts)).
+Proof.
+  induction ts as [|t ts IH]; cbn [filter map]; [reflexivity|].
+  change (verdict_tested (obs_rtest t)) with (rt_tested t).
+  destruct (rt_tested t); cbn [List.length]; rewrite IH; reflexivity.
+Qed.
+
+(* GOAL 2 (C06 / C07 / C15), for well-formed documents *)
+Theorem schema_model_meets_spec_partial : forall (rs : list srule) (doc : pyval) x,
+  forallb srule_ok rs = true -> wf_val doc = true ->
+  spec_validate rs doc = Some x -> run_validate (map srule_term rs) doc = x.
+Proof.
+  intros rs doc x Hok Hwf. unfold spec_validate, run_validate.
+  pose proof (mk_rules_spec rs Hok) as Hmk.
+  destruct (spaths_of rs) as [prs|e].
+  2:{ intros H; inversion H; subst x. rewrite Hmk. reflexivity. }
+  destruct Hmk as [rls [Emk HF]]. rewrite Emk. cbn [bind].
+  destruct (forallb (fun pr => rule_in_domain (fst pr) (snd pr)) prs) eqn:Hdom; cbn [negb]; [|discriminate].
+  unfold validate.
+  destruct (nonempty_container doc) eqn:Hne; cbn [negb].
+  2:{ intros H; inversion H; subst x. rewrite (mk_data_empty doc Hne). reflexivity. }
+  destruct (mk_data_items doc (nonempty_shape doc Hne)) as [d [Ed _]]. rewrite Ed. cbn [bind].
+  pose proof (sort_rel prs rls HF) as HFs.
+  assert (Hdoms : forallb (fun pr => rule_in_domain (fst pr) (snd pr)) (ssort_rules prs) = true)
+    by (rewrite forallb_ssort; exact Hdom).
+  destruct (run_rules_spec doc Hwf Hne _ _ HFs Hdoms doc Hwf (sk_refl doc)) as [ts [Ets [Hos Htps]]].
+  rewrite Ets. cbn [bind].
+  destruct (spec_run_rules (ssort_rules prs) doc doc) as [vs0 copy]. cbn [fst snd] in *.
+  intros H; inversion H; subst x; clear H.
+  cbn [v_valid v_num_failures v_num_tested v_tests v_cast_data].
+  rewrite agg_valid, agg_nfail, agg_tested.
+  rewrite (refresh_spec copy _ _ HFs ts Htps), Hos. reflexivity.
+Qed.
+
+(* GOAL 3 (C07): validation never raises because of what a (well-formed, non-empty) document contains *)
+Theorem validate_total_partial : forall rs doc,
+  forallb srule_ok rs = true -> wf_val doc = true -> nonempty_container doc = true ->
+  (exists prs, spaths_of rs = Ok prs /\ forallb (fun pr => rule_in_domain (fst pr) (snd pr)) prs = true) ->
+  exists v, run_validate (map srule_term rs) doc = Ok v.
+Proof.
+  intros rs doc Hok Hwf Hne [prs [Eprs Hdom]].
+  assert (Hs : exists v, spec_validate rs doc = Some (Ok v)).
+  { unfold spec_validate. rewrite Eprs, Hdom, Hne. cbn [negb].
+    destruct (spec_run_rules (ssort_rules prs) doc doc) as [vs0 copy]. eexists; reflexivity. }
+  destruct Hs as [v Hs]. exists v. exact (schema_model_meets_spec_partial rs doc (Ok v) Hok Hwf Hs).
+Qed.
+
+(* what the model does on a document that is not a non-empty container (cf. cex_error_order):
+   construction errors of the rule come first *)
+Lemma rule_test_empty_doc r doc : srule_ok r = true -> nonempty_container doc = false ->
+  run_rule_test (srule_term r) doc = match spath1 r with Err e => Err e | Ok _ => Err TypeError end.
+Proof.
+  intros Hok Hne. unfold run_rule_test. pose proof (mk_rule_spec r Hok) as Hmk.
+  destruct (spath1 r) as [sp|e].
+  - destruct Hmk as [rl [Emk _]]. rewrite Emk. cbn [bind]. unfold rule_test.
+    rewrite (mk_data_empty doc Hne). reflexivity.
+  - rewrite Hmk. reflexivity.
+Qed.
+
+(* ================================================================== *)
+(* Counterexamples to the statements without the extra hypotheses       *)
+
+(* (1) spec_rule_test checks the document before the construction of the rule; the model
+   (like the code) constructs the rule first. *)
+Definition cex_rule_1 : srule :=
+  {| sr_path := {| st_parts := [SPrim (VStr "a")]; st_mods := ["foo"]; st_src := None |};
+     sr_cond := QNull; sr_cast := [] |}.
+Example cex_error_order :
+  srule_ok cex_rule_1 = true /\ wf_val (VList []) = true /\
+  spec_rule_test cex_rule_1 (VList []) = Some (Err TypeError) /\
+  run_rule_test (srule_term cex_rule_1) (VList []) = Err AttributeError.
+Proof. vm_compute. repeat split; reflexivity. Qed.
+
+(* (2) on a dict with a repeated key (not a Python value: wf_val = false) a concrete path selects
+   two nodes in the spec walk, the model's concrete get_data returns the first only. *)
+Definition cex_rule_2 : srule :=
+  {| sr_path := {| st_parts := [SPrim (VStr "a")]; st_mods := []; st_src := None |};
+     sr_cond := QLeaf SValue (Q_equal_to (VInt 1)); sr_cast := [] |}.
+Definition cex_doc_2 : pyval := VDict [(VStr "a", VInt 1); (VStr "a", VInt 2)].
+Example cex_repeated_key :
+  srule_ok cex_rule_2 = true /\ wf_val cex_doc_2 = false /\ nonempty_container cex_doc_2 = true /\
+  spec_rule_test cex_rule_2 cex_doc_2 =
+    Some (Ok (VTuple [VTuple [VBool false; VBool true; VInt 1;
+                              VList [VTuple [VInt 1; VInt 2; VTuple [VStr "a"]; VBool true]]]; cex_doc_2])) /\
+  run_rule_test (srule_term cex_rule_2) cex_doc_2 =
+    Ok (VTuple [VTuple [VBool true; VBool true; VInt 0; VList []]; cex_doc_2]) /\
+  spec_validate [cex_rule_2] cex_doc_2 <> Some (run_validate (map srule_term [cex_rule_2]) cex_doc_2).
+Proof. vm_compute. repeat split; try reflexivity. intros H; discriminate H. Qed.
+
+(* (3) totality (Goal 3) also needs wf_val: a dict key that is not == to itself (itself a dict with a
+   repeated key, not a Python value) makes the write-back of a cast fail with KeyError. *)
+Definition cex_rule_3 : srule :=
+  {| sr_path := {| st_parts := [STMap None None None None]; st_mods := []; st_src := None |};
+     sr_cond := QNull; sr_cast := [(TStr, CastStrBool)] |}.
+Definition cex_doc_3 : pyval := VDict [(VDict [(VStr "a", VInt 1); (VStr "a", VInt 2)], VStr "true")].
+Example cex_total_needs_wf :
+  forallb srule_ok [cex_rule_3] = true /\ wf_val cex_doc_3 = false /\ nonempty_container cex_doc_3 = true /\
+  (exists prs, spaths_of [cex_rule_3] = Ok prs /\
+               forallb (fun pr => rule_in_domain (fst pr) (snd pr)) prs = true) /\
+  run_validate (map srule_term [cex_rule_3]) cex_doc_3 = Err KeyError /\
+  run_rule_test (srule_term cex_rule_3) cex_doc_3 = Err KeyError.
+Proof.
+  split; [vm_compute; reflexivity|]. split; [vm_compute; reflexivity|]. split; [vm_compute; reflexivity|].
+  split; [eexists; split; [vm_compute; reflexivity|vm_compute; reflexivity]|].
+  split; vm_compute; reflexivity.
+Qed.
+
+(* Goal 1 including documents that are not non-empty containers, when the construction of the rule
+   cannot fail with anything but TypeError *)
+Corollary rule_model_meets_spec_partial_any_doc : forall (r : srule) (doc : pyval) x,
+  srule_ok r = true -> wf_val doc = true ->
+  (nonempty_container doc = true \/ forall e, spath1 r = Err e -> e = TypeError) ->
+  spec_rule_test r doc = Some x -> run_rule_test (srule_term r) doc = x.
+Proof.
+  intros r doc x Hok Hwf Hcase Hs.
+  destruct (nonempty_container doc) eqn:Hne.
+  - exact (rule_model_meets_spec_partial r doc x Hok Hwf Hne Hs).
+  - destruct Hcase as [Hc|Hc]; [discriminate Hc|].
+    rewrite (rule_test_empty_doc r doc Hok Hne).
+    unfold spec_rule_test in Hs. rewrite Hne in Hs. cbn [negb] in Hs. inversion Hs; subst x.
+    destruct (spath1 r) as [sp|e]; [reflexivity|]. rewrite (Hc e eq_refl). reflexivity.
+Qed.
+
+Print Assumptions reasons_nonempty.
+Print Assumptions build1_lit.
+Print Assumptions filter_tree_lit.
+Print Assumptions selection_spec.
+Print Assumptions judge_spec.
+Print Assumptions cast_loop_spec.
+Print Assumptions rule_test_spec.
+Print Assumptions rule_model_meets_spec_partial.
+Print Assumptions schema_model_meets_spec_partial.
+Print Assumptions validate_total_partial.
+Print Assumptions rule_test_empty_doc.
+Print Assumptions cex_error_order.
+Print Assumptions cex_repeated_key.
+Print Assumptions cex_total_needs_wf.
+Print Assumptions rule_model_meets_spec_partial_any_doc.
